@@ -257,6 +257,14 @@ impl<'a, F: Field> CircuitRunner<'a, F> {
     pub fn execute_all(&mut self) -> Result<Vec<AluOpRecord<F>>, CircuitError> {
         let mut alu_records = Vec::with_capacity(self.circuit.ops.len());
 
+        // A private input is supplied by the caller: a missing one is an error, it is never
+        // inferred from the constraints it takes part in.
+        for &widx in &self.circuit.private_input_rows {
+            if self.witness_value(widx).is_none() {
+                return Err(CircuitError::WitnessNotSet { witness_id: widx });
+            }
+        }
+
         for op in &self.circuit.ops {
             match op {
                 Op::Const { out, val } => {
